@@ -50,8 +50,8 @@ type session = {
 }
 let isz k = ci (match k with 0 | 1 -> 4 | 2 -> 8 | _ -> 12)
 let sess : session option ref = ref None
-let strs : C.str array = [| C.str_empty; C.str_tmp (ci 200); C.str_tmp (ci 16) |]
-let reset_strs () = strs.(0) <- C.str_empty; strs.(1) <- C.str_tmp (ci 200); strs.(2) <- C.str_tmp (ci 16)
+let strs : C.str array = [| C.str_empty; C.str_tmp (ci 200); C.str_tmp (ci 16); C.str_empty |]
+let reset_strs () = strs.(0) <- C.str_empty; strs.(1) <- C.str_tmp (ci 200); strs.(2) <- C.str_tmp (ci 16); strs.(3) <- C.str_empty
 
 let errc (e : C.verr) = match e with C.EOk -> 0 | C.EOutOfMemory -> 1 | C.EOverrun -> 9
 let serrc (e : C.serr) = match e with C.SOk -> 0 | C.SOutOfMemory -> 1 | C.SInvalidArgument -> 2 | C.SOverrun -> 9
@@ -306,6 +306,15 @@ let str_cmd (k : int) (t : string list) : string =
   let s = strs.(k) in
   let fin ((e, s') : C.serr * C.str) = strs.(k) <- s'; str_state e s' in
   match t with
+  | ("sw" | "mv" | "mc") :: _ when k <> 0 && k <> 3 -> "skip"
+  | op :: _ when op = "sw" || op = "mv" || op = "mc" ->
+    let o = 3 - k in
+    let (a', b') = (match op with
+      | "sw" -> C.str_swap s strs.(o)
+      | "mv" -> C.str_move_assign s strs.(o)
+      | _ -> let (tmp, s1) = C.str_move_construct s in let (s2, _) = C.str_move_assign s1 tmp in (s2, strs.(o))) in
+    strs.(k) <- a'; strs.(o) <- b';
+    str_state C.SOk a' ^ " o:" ^ str_state C.SOk b'
   | "as" :: d :: _ -> fin (C.str_assign mok s (unhex d))
   | "os" :: o :: d :: _ -> fin (C.str_op_text mok s (sop_of o) (unhex d))
   | "oc" :: o :: c :: _ -> fin (C.str_op_char mok s (sop_of o) (byte_of c))
